@@ -118,6 +118,9 @@ def run(ctx):
     from rules import shared
     shared.from_buffer_commit(ctx, "C05-R6")
 
+    ctx.rule("C05-R7", "the adapter that feeds control-plane bytes to the parsers reports exactly what arrived")
+    shared.proto_io_adapters(ctx, "C05-R7")
+
     ctx.rule("C05-R2", "inventory of every await of a progress-carrying future with its cancellation context")
     spawned = {cor for _, _, cor in idx.spawn_sites() if cor}
     inv = []
@@ -207,8 +210,9 @@ def eof_rules(ctx, rid):
                 continue
             x = v[5][0]
             io = canon(x)
-            if "err(await(" not in io:
-                continue    # a protocol error (unknown type, too big ...), not the source's EOF / IO error
+            at = path_sig(p)[0]
+            if not (at and re.match(r"^await\((BytesReaderAsync::)?get_(varint|buffer)\(.*\)\) fails$", at[-1])):
+                continue    # a protocol error (unknown type, too big ...), not a failed read of the source
             k = len(_reader_seq(p))
             site = "%s|read#%d" % (owner.split("::")[-3], k)
             if k <= 1:
